@@ -19,6 +19,14 @@ def run(ctx):
     # the process's local zone is no input of the property: a slice of the drawings is made in a zone with DST
     zrecs, zerrors = tl.gather(ctx, ns_min=0, tz="EST5EDT,M3.2.0,M11.1.0", scale=0.2)
     tl.check(ctx, "DrawC07.cfg", zrecs, "C07_", zone="US-Eastern-DST")
+    # the time scale's tick format (labella.scale.mytimeformat) as modelled in DrawTrace.tla: conformance only
+    res, st = core.validate_records("DrawTrace", "DrawDrift.cfg", recs, per_shard=120, heap="3g")
+    ctx.states += st["distinct"]
+    ctx.transitions += st["generated"]
+    drift = sorted({i for i, inv in res})
+    ctx.extra["time_tick_format_model_conformance"] = {"drawings_compared": len(recs), "spec_drift": len(drift)}
+    if drift:
+        ctx.notes.append("spec drift: in %d drawings the time scale formats a tick differently from the model TimeFormat of spec/DrawTrace.tla" % len(drift))
     ctx.evaluations += 2 * len(recs) + 2 * len(zrecs)
     ctx.nontrivial += len({r["svg"]["sha"] for r in recs if max(n["layer"] for n in r["svg"]["nodes"]) > 0 or r["svg"]["n"] >= 2})
     small = [r for r in recs if r["svg"]["n"] <= 2]
